@@ -479,6 +479,11 @@ def kind_allows(spec, kind):
             return "pydantic does not support variadic generics (documented)"
         if any(c["generic"] is None and c["bases"] and rg.class_params(spec, c["name"]) for c in classes):
             return "pydantic requires an explicit Generic[...] on generic subclasses: the implicit variant does not exist"
+        for c in classes:
+            for b in c["bases"]:
+                if b["args"] is not None and [rg.freeze(a) for a in b["args"]] == [var(p) for p in rg.class_params(spec, b["cls"])]:
+                    return ("pydantic returns the unparametrised class for Base[<its own type variables>] (documented limitation: "
+                            "parametrized pydantic models do not expose type hints dunders; incorrect resolving in tricky cases)")
     if kind == "namedtuple":
         for c in classes[1:]:
             if len(c["bases"]) != 1:
@@ -567,6 +572,15 @@ def exc_name(e):
     return type(e).__name__
 
 
+def _raised_inside(e, package):
+    tb = e.__traceback__
+    last = None
+    while tb is not None:
+        last = tb
+        tb = tb.tb_next
+    return last is not None and f"/site-packages/{package}/" in last.tb_frame.f_code.co_filename
+
+
 class Evaluator:
     def __init__(self, report, tier, confirm=True):
         self.report = report
@@ -648,7 +662,7 @@ class Evaluator:
         leaf = spec["classes"][-1]["name"]
         argf = rg.args_features(spec, leaf, args)
         key = (spec, kind, args)
-        if any(rg.mentions(t, "unbounded") for ts in ref.values() for t in ts):
+        if "bare_variadic" in argf or any(rg.mentions(t, "unbounded") for ts in ref.values() for t in ts):
             report.skip("bare TypeVarTuple means *tuple[Any, ...]: dynamic-length unpacking is documented as not supported")
             return
         ctx = {"spec": spec, "kind": kind, "args": args}
@@ -668,6 +682,11 @@ class Evaluator:
             loader = retort.get_loader(tp)
             dumper = retort.get_dumper(tp)
         except Exception as e:  # noqa: BLE001
+            if kind == "pydantic" and _raised_inside(e, "pydantic"):
+                report.case(key, nontrivial=False)
+                report.skip(f"pydantic itself raises while the model is parametrised ({exc_name(e)}; documented: bugs in generic "
+                            f"resolving inside pydantic itself)")
+                return
             report.case(key, nontrivial=True)
             report.outcome(f"{kind}:creation_failed")
             self.violation(whole_shape, "creation_failed", ctx,
@@ -853,11 +872,32 @@ def shard(arg):
     return report
 
 
+def fold_violations(report):
+    """One root cause shows up together with every other feature of the hierarchies it occurs in.  Groups are therefore
+    reduced to the inclusion-minimal feature sets per (kind, problem): a group whose shape is a superset of a smaller failing
+    shape is folded into that smaller one (the enumeration is complete, so a cause that needs the extra feature keeps it)."""
+    groups = {}
+    for key, v in report.violations.items():
+        groups.setdefault((v["sig"]["kind"], v["sig"]["problem"]), []).append((frozenset(v["sig"]["shape"].split("+")), key))
+    out = {}
+    for members in groups.values():
+        minimal = sorted((fs for fs, _ in members if not any(o < fs for o, _ in members)), key=sorted)
+        for fs, key in members:
+            target = next(m for m in minimal if m <= fs)
+            tkey = next(k for f, k in members if f == target)
+            slot = out.get(tkey)
+            if slot is None:
+                slot = out[tkey] = {**report.violations[tkey], "count": 0}
+            slot["count"] += report.violations[key]["count"]
+    report.violations = out
+
+
 def run(tier):
     report = Report()
     n = sum(1 for _ in enumerate_specs(tier))
     report.count("specs_enumerated", n)
     parallel.run_shards(shard, [(tier, i) for i in range(N_SHARDS)], report=report)
+    fold_violations(report)
     return report
 
 
